@@ -28,6 +28,8 @@ SPEC_SCOPE = {'All': ['all'], 'Build': ['all', 'build', 'layer_paths_build'], 'L
 def sym(f, v):
     """classify a value inside LayerEnvDelta::apply"""
     v = strip(v)
+    if v[0] == 'concat':   # the string being built: classify what it was before the pushes
+        v = strip(v[1])
     coll, proj = L.loop_element(v)
     if coll is not None and L.self_field(f, coll) == 'entries':
         return {('0', '1'): 'NAME', ('1',): 'VALUE', ('0', '0'): 'BEHAVIOUR'}.get(proj, 'ELEM' + str(proj))
